@@ -161,8 +161,14 @@ pub struct SnapResult {
     /// the snapshot failed in the known class F-C23-1 (see notes/C23.md): a tracked path below an
     /// ignored directory whose parent on disk is no longer a directory (ENOTDIR is not NotFound)
     pub known_enotdir: bool,
+    /// the snapshot hit the known class F-C23-2: a file (or symlink) on disk replaces a directory
+    /// that holds a conflicted path; `write_path_to_store` keeps the old (tree-valued) conflict, so
+    /// the file gets a file state but no tree entry (debug builds: `assert_eq!(state_paths, tree_paths)`)
+    pub known_conflict_dir: bool,
 }
-pub struct UpdResult { pub pre: Pre, pub new_tree: TreeM, pub result: Result<(Disk, BTreeSet<P>, CheckoutStats), String>, pub trace: Vec<P>, pub escaped: Vec<String> }
+pub struct UpdResult { pub pre: Pre, pub new_tree: TreeM, pub result: Result<(Disk, BTreeSet<P>, CheckoutStats), String>, pub trace: Vec<P>, pub escaped: Vec<String>,
+    /// the update panicked in the known class F-C25-1 (`changed_file_states` not sorted, see notes/C25.md)
+    pub known_unsorted: bool }
 
 fn conflict_id<T: std::fmt::Debug>(v: &T) -> String {
     let mut h = std::collections::hash_map::DefaultHasher::new();
@@ -298,7 +304,7 @@ impl Env {
         let (result, tree) = match got {
             Ok(Ok((tree, _stats))) => (Ok((read_tree(&tree), self.states())), Some(tree)),
             Ok(Err(e)) => (Err(format!("err:{}", err_kind(&format!("{e}")))), None),
-            Err(_) => (Err("panic".to_string()), None),
+            Err(m) => { note_panic(&m); (Err("panic".to_string()), None) }
         };
         let req = format!("snap {} {} {} {} {}", show_tree(&pre.tree), show_set(&pre.states), show_seq(&pre.sparse),
                           show_disk(&pre.disk), show_set(&ign_set));
@@ -309,14 +315,18 @@ impl Env {
                 matches!(pre.disk.get(&anc), Some(Ent::File(..)) | Some(Ent::Link(_)))
                     && (1..n).any(|m| { let a2 = q[..m].to_vec(); pre.disk.get(&a2) == Some(&Ent::Dir) && ign_set.contains(&a2) })
             }));
-        if known_enotdir {
+        let dl = leaves(&pre.disk);
+        let known_conflict_dir = result.as_ref().err().map(|e| e.as_str()) == Some("panic")
+            && dl.keys().any(|q| in_sparse(&pre.sparse, q)
+                && pre.tree.iter().any(|(k, v)| is_strict_prefix(q, k) && matches!(v, TV::Conflict { .. })));
+        if known_enotdir || known_conflict_dir {
             // the model describes the intended decision (the path is removed); the code fails instead.
             // Known finding: evaluated on the implementation only, reported by the oracle.
             out.impl_only();
         } else {
             out.case(&req, &resp);
         }
-        SnapResult { pre, ign_set, result, tree, known_enotdir }
+        SnapResult { pre, ign_set, result, tree, known_enotdir, known_conflict_dir }
     }
 
     fn take_trace(&self) -> (Vec<P>, Vec<String>) {
@@ -338,14 +348,16 @@ impl Env {
         let new_tree = read_tree(tree);
         let commit = commit_with_tree(self.tw.repo.store(), tree.clone());
         TRACE.lock().unwrap().clear();
+        *LAST_PANIC.lock().unwrap() = None;
         let op = self.tw.repo.op_id().clone();
         let got = guard(|| self.tw.workspace.check_out(op, None, &commit).block_on());
         let (trace, escaped) = self.take_trace();
         let result = match got {
             Ok(Ok(stats)) => Ok((scan(&self.root), self.states(), stats)),
             Ok(Err(e)) => Err(format!("err:{}", err_kind(&format!("{e}")))),
-            Err(_) => Err("panic".to_string()),
+            Err(m) => { note_panic(&m); Err("panic".to_string()) }
         };
+        let known_unsorted = LAST_PANIC.lock().unwrap().take().is_some_and(|m| m.contains("changed_file_states must be sorted"));
         let req = format!("co {} {} {} {} {}", show_tree(&pre.tree), show_set(&pre.states), show_seq(&pre.sparse),
                           show_disk(&pre.disk), show_tree(&new_tree));
         let resp = match &result {
@@ -353,8 +365,8 @@ impl Env {
                                       st.removed_files, st.skipped_files, show_seq(&trace)),
             Err(e) => e.clone(),
         };
-        out.case(&req, &resp);
-        UpdResult { pre, new_tree, result, trace, escaped }
+        if known_unsorted { out.impl_only(); } else { out.case(&req, &resp); }
+        UpdResult { pre, new_tree, result, trace, escaped, known_unsorted }
     }
 
     /// the real set_sparse_patterns; emits one correspondence case
@@ -373,7 +385,7 @@ impl Env {
         let result = match got {
             Ok(Ok(stats)) => Ok((scan(&self.root), self.states(), stats)),
             Ok(Err(e)) => Err(format!("err:{}", err_kind(&format!("{e}")))),
-            Err(_) => Err("panic".to_string()),
+            Err(m) => { note_panic(&m); Err("panic".to_string()) }
         };
         let req = format!("sparse {} {} {} {} {}", show_tree(&pre.tree), show_set(&pre.states), show_seq(&pre.sparse),
                           show_disk(&pre.disk), show_seq(pats));
@@ -384,7 +396,7 @@ impl Env {
         };
         out.case(&req, &resp);
         let new_tree = pre.tree.clone();
-        UpdResult { pre, new_tree, result, trace, escaped }
+        UpdResult { pre, new_tree, result, trace, escaped, known_unsorted: false }
     }
 
     // ---- edits of the real directory ------------------------------------------------------
@@ -434,6 +446,11 @@ impl Env {
         std::fs::set_permissions(self.fs(q), std::fs::Permissions::from_mode(if x { 0o755 } else { 0o644 })).unwrap();
     }
 }
+
+pub static PANICS: Mutex<Vec<String>> = Mutex::new(Vec::new());
+pub static LAST_PANIC: Mutex<Option<String>> = Mutex::new(None);
+pub fn note_panic(m: &str) {
+    *LAST_PANIC.lock().unwrap() = Some(m.to_string()); let mut v = PANICS.lock().unwrap(); if v.len() < 50 { v.push(m.chars().take(300).collect()); } }
 
 pub fn err_kind(msg: &str) -> &'static str {
     if msg.contains("Failed to stat") { "stat" }
